@@ -191,6 +191,7 @@ void em_watch_free(struct em *m, int id);
 int  em_loop_begin(struct em *m, int flags);                   /* -1: reentrant */
 void em_loop_next(struct em *m, const struct em_obs *hint, struct em_obs *out);
 int  em_loop_running(const struct em *m);
+int  em_ready_fds(const struct em *m);                        /* registered fds the next wait will report */
 
 /* canonical hash of the whole model state (see the argument in the .c file) */
 uint64_t em_canon(const struct em *m, uint64_t h);
